@@ -877,3 +877,119 @@ Section IndexProofs.
     - destruct Hsp as (-> & -> & _). reflexivity.
   Qed.
 End IndexProofs.
+
+(** * arbitrary callback traces: the handlers emit one terminal record per final response and one per error return *)
+Lemma count_terminal_app a b : count_terminal (a ++ b) = count_terminal a + count_terminal b.
+Proof. unfold count_terminal. rewrite filter_app, app_length. reflexivity. Qed.
+
+Lemma gen_done_count cfg sb content r n : count_terminal (gen_done cfg sb content r n) = 1.
+Proof. unfold gen_done. destruct (g_raw cfg); [|destruct (g_tokfail cfg)]; reflexivity. Qed.
+
+Lemma gen_trace_items_count cfg : forall evs sb,
+  count_terminal (gen_trace_items cfg sb evs) = length (filter is_final evs).
+Proof.
+  induction evs as [|e evs IH]; intros sb; cbn [gen_trace_items filter]; [reflexivity|].
+  destruct e as [c|content r n]; cbn [is_final].
+  - change (count_terminal (?x :: ?l)) with (count_terminal ([x] ++ l)). rewrite count_terminal_app, IH. reflexivity.
+  - rewrite count_terminal_app, gen_done_count, IH. reflexivity.
+Qed.
+
+Lemma ret_items_count t : count_terminal (ret_items t) = errs t.
+Proof. unfold ret_items, errs. destruct (returned t); reflexivity. Qed.
+
+Lemma gen_trace_count cfg t : count_terminal (gen_trace_stream cfg t) = finals t + errs t.
+Proof. unfold gen_trace_stream. rewrite count_terminal_app, gen_trace_items_count, ret_items_count. reflexivity. Qed.
+
+Definition fin_events (f : fin) : list cev := match f with FDone c r n => [CFinal c r n] | _ => [] end.
+Definition fin_ret (f : fin) : list nrec := match f with FErr m => [ErrRec m] | _ => [] end.
+
+Lemma gen_trace_items_chunks cfg f : forall cs sb,
+  gen_trace_items cfg sb (map CChunk cs ++ fin_events f) ++ fin_ret f = gen_items cfg sb cs f.
+Proof.
+  induction cs as [|c cs IH]; intros sb; cbn [map app gen_trace_items gen_items].
+  - destruct f; cbn; rewrite ?app_nil_r; reflexivity.
+  - cbn [app]. f_equal. apply IH.
+Qed.
+
+Lemma gen_trace_of cfg o : gen_trace_stream cfg (trace_of o) = gen_stream cfg o.
+Proof.
+  unfold gen_trace_stream, gen_stream, trace_of. rewrite <- gen_trace_items_chunks.
+  destruct (ending o); cbn [events returned ret_items fin_events fin_ret]; rewrite ?app_nil_r; reflexivity.
+Qed.
+
+Section ChatTraceProofs.
+  Variable P : str -> option (list (str * str)).
+
+  Lemma chat_step_done_count cfg st c rs cnt : count_terminal (snd (chat_step P cfg st c true rs cnt)) = 1.
+  Proof. destruct (chat_step_done P cfg st c rs cnt) as (t & -> & Ht). unfold count_terminal. cbn. rewrite Ht. reflexivity. Qed.
+
+  Lemma chat_step_nondone_count cfg st c rs cnt : count_terminal (snd (chat_step P cfg st c false rs cnt)) = 0.
+  Proof.
+    pose proof (chat_step_nondone P cfg st c rs cnt) as H. unfold count_terminal.
+    induction (snd (chat_step P cfg st c false rs cnt)) as [|x l IH]; cbn in *; [reflexivity|].
+    apply andb_true_iff in H as [Hx H]. apply negb_true_iff in Hx. rewrite Hx. apply IH; exact H.
+  Qed.
+
+  Lemma chat_trace_items_count cfg : forall evs st,
+    count_terminal (chat_trace_items P cfg st evs) = length (filter is_final evs).
+  Proof.
+    induction evs as [|e evs IH]; intros st; cbn [chat_trace_items filter]; [reflexivity|].
+    destruct e as [c|content r n]; cbn [is_final].
+    - pose proof (chat_step_nondone_count cfg st c [] zeroc) as H.
+      destruct (chat_step P cfg st c false [] zeroc) as [st' out]. cbn [snd] in H.
+      rewrite count_terminal_app, H, IH. reflexivity.
+    - pose proof (chat_step_done_count cfg st content (reason_str r) n) as H.
+      destruct (chat_step P cfg st content true (reason_str r) n) as [st' out]. cbn [snd] in H.
+      rewrite count_terminal_app, H, IH. reflexivity.
+  Qed.
+
+  Lemma chat_trace_count cfg t : count_terminal (chat_trace_stream P cfg t) = finals t + errs t.
+  Proof. unfold chat_trace_stream. rewrite count_terminal_app, chat_trace_items_count, ret_items_count. reflexivity. Qed.
+
+  Lemma chat_trace_of cfg o : chat_trace_stream P cfg (trace_of o) = chat_stream P cfg o.
+  Proof.
+    unfold chat_trace_stream, chat_stream, trace_of.
+    destruct (ending o) as [content r n|m|]; cbn [events returned ret_items];
+      generalize (@nil N, 0) as st; induction (chunks o) as [|c cs IH]; intros st; cbn [map app chat_trace_items chat_items].
+    - destruct (chat_step P cfg st content true (reason_str r) n) as [st' out]. cbn. rewrite !app_nil_r. reflexivity.
+    - destruct (chat_step P cfg st c false [] zeroc) as [st' out]. rewrite <- app_assoc. f_equal. apply IH.
+    - reflexivity.
+    - destruct (chat_step P cfg st c false [] zeroc) as [st' out]. rewrite <- app_assoc. f_equal. apply IH.
+    - reflexivity.
+    - destruct (chat_step P cfg st c false [] zeroc) as [st' out]. rewrite <- app_assoc. f_equal. apply IH.
+  Qed.
+End ChatTraceProofs.
+
+(** a trace that obeys the contract is the trace of a runner output that does not end silently *)
+Lemma existsb_final_map_chunk cs : existsb is_final (map CChunk cs) = false.
+Proof. induction cs; cbn; auto. Qed.
+
+Lemma no_final_chunks : forall evs, existsb is_final evs = false -> exists cs, evs = map CChunk cs.
+Proof.
+  induction evs as [|e evs IH]; intros H; [exists []; reflexivity|].
+  cbn in H. apply orb_false_iff in H as [He H]. destruct e as [c|]; [|discriminate].
+  destruct (IH H) as (cs & ->). exists (c :: cs). reflexivity.
+Qed.
+
+Lemma existsb_rev {A} (f : A -> bool) l : existsb f (rev l) = existsb f l.
+Proof. induction l as [|x l IH]; cbn; [reflexivity|]. rewrite existsb_app, IH. cbn. rewrite orb_false_r, orb_comm. reflexivity. Qed.
+
+Lemma contract_trace t : contractb t = true -> exists o, ending o <> FSilent /\ t = trace_of o.
+Proof.
+  destruct t as [evs ret]. unfold contractb. cbn [events returned].
+  destruct ret as [m|].
+  - intros H. assert (He : existsb is_final evs = false).
+    { destruct (rev evs) as [|e before] eqn:E.
+      - apply (f_equal (@rev cev)) in E. rewrite rev_involutive in E. subst. reflexivity.
+      - assert (existsb is_final (rev evs) = false) as Hr.
+        { rewrite E. destruct e; apply negb_true_iff in H; exact H. }
+        rewrite existsb_rev in Hr. exact Hr. }
+    destruct (no_final_chunks evs He) as (cs & ->).
+    exists (mkOut cs (FErr m)). split; [discriminate|reflexivity].
+  - intros H. destruct (rev evs) as [|e before] eqn:E; [discriminate|].
+    destruct e as [c|content r n]; [discriminate|].
+    apply negb_true_iff in H. rewrite <- (rev_involutive before), existsb_rev in H.
+    destruct (no_final_chunks _ H) as (cs & Hcs).
+    apply (f_equal (@rev cev)) in E. rewrite rev_involutive in E. cbn in E. rewrite Hcs in E. subst evs.
+    exists (mkOut cs (FDone content r n)). split; [discriminate|reflexivity].
+Qed.
